@@ -58,6 +58,8 @@ def run_shards(binpath, check, tier, nshards, extra_args, wdir, seed, wall_cap):
     results = {}
     t0 = time.time()
 
+    skips = {}
+
     def start(k, resume_after=None, gen=0):
         out = os.path.join(wdir, "shard_%d_%d.json" % (k, gen))
         prog = os.path.join(wdir, "prog_%d" % k)
@@ -65,17 +67,20 @@ def run_shards(binpath, check, tier, nshards, extra_args, wdir, seed, wall_cap):
                "--progress", prog, "--seed", str(seed)] + extra_args
         if resume_after is not None:
             cmd += ["--resume-after", str(resume_after)]
+        if skips.get(k):
+            cmd += ["--skip", ",".join(str(x) for x in sorted(skips[k]))]
         log = open(os.path.join(wdir, "shard_%d.log" % k), "ab")
         p = subprocess.Popen(cmd, cwd=ROOT, env=ENV, stdout=log, stderr=log)
-        procs[k] = (p, out, prog, gen)
+        procs[k] = (p, out, prog, gen, resume_after)
 
     for k in range(nshards):
         start(k)
     restarts = 0
+    tagged_restarts = 0
     while procs:
         time.sleep(0.05)
         for k in list(procs):
-            p, out, prog, gen = procs[k]
+            p, out, prog, gen, resumed_from = procs[k]
             rc = p.poll()
             if rc is None:
                 if time.time() - t0 > wall_cap:
@@ -107,13 +112,35 @@ def run_shards(binpath, check, tier, nshards, extra_args, wdir, seed, wall_cap):
                 print(tail)
                 die("shard %d died (rc=%s) before announcing a case" % (k, rc))
             deaths.append({"shard": k, "index": idx, "rc": rc, "log_tail": tail, "tag": tag})
-            restarts += 1
-            if restarts > 48:
+            # deaths on cases the harness tagged as belonging to a recorded construct do not count
+            # against the restart budget (otherwise a recorded defect would stop the whole run)
+            if tag == 0:
+                restarts += 1
+            else:
+                tagged_restarts += 1
+            if restarts > 8 * nshards or tagged_restarts > 3000:
                 # a defect that kills the worker on very many cases: stop restarting, keep the
                 # deaths observed so far as the verdict (the run is reported as capped)
-                capped.append("stopped restarting workers after 48 deaths; shard %d not finished" % k)
+                capped.append("stopped restarting workers after %d deaths; shard %d not finished" % (restarts + tagged_restarts, k))
                 continue
-            start(k, resume_after=idx, gen=gen + 1)
+            if os.path.exists(out + ".slowstop"):
+                capped.append("shard %d had stopped after 8 slow executions and then died; not restarted" % k)
+                if os.path.exists(out + ".ckpt"):
+                    results.setdefault(k, []).append(out + ".ckpt")
+                continue
+            # keep what the dead worker had checkpointed; redo from there, skipping the fatal case
+            skips.setdefault(k, set()).add(idx)
+            ck = out + ".ckpt"
+            resume = resumed_from
+            if os.path.exists(ck):
+                try:
+                    upto = json.load(open(ck)).get("checkpoint_upto")
+                    if upto is not None and (resume is None or upto > resume):
+                        results.setdefault(k, []).append(ck)
+                        resume = upto
+                except Exception:
+                    pass
+            start(k, resume_after=resume, gen=gen + 1)
     return results, deaths, time.time() - t0, capped
 
 
